@@ -1130,6 +1130,16 @@ func (sh *SessionHub) deleteSession(sess *session) {
 	}
 }
 
+// deleteSessionAt deletes the entry under id if it is still this *session.
+func (sh *SessionHub) deleteSessionAt(id string, sess *session) {
+	if id == sess.ID() {
+		return
+	}
+	if cur, ok := sh.sessions.Load(id); ok && cur.(*session) == sess {
+		sh.sessions.Delete(id)
+	}
+}
+
 const (
 	typePushLaunch int8 = 1
 	typePushHandle int8 = 2
